@@ -149,6 +149,20 @@ def _converts(call):
     return ('list' in t or 'tuple' in t) and ('handle' in src or 'object' in src)
 
 
+# the C-API list item accessor without a bounds check (a macro over an inline function since 3.11)
+RAW_LIST_ITEM = {'PyList_GET_ITEM'}
+
+
+def _raw_list_subscripts(f):
+    """`list->ob_item[i]` (the expansion of PyList_GET_ITEM where it is a macro)"""
+    out = []
+    for s_ in f.body.find('ArraySubscriptExpr'):
+        if any(m.kind == 'MemberExpr' and m.name == 'ob_item' for m in s_.walk()) and \
+                'PyListObject' in ' '.join((x.type or '') for x in s_.walk()):
+            out.append(s_)
+    return out
+
+
 @rule('I1', floor=6, title='no unchecked index into a list the user can shrink while user code runs inside the loop')
 def i1(ctx):
     prog = ctx.cxx()
@@ -164,19 +178,35 @@ def i1(ctx):
             continue
         inits = local_inits(f)
         parent = None
-        for c in calls_in(f.body, accessor_names):
-            t = callee_func(prog, f, c)
+        sites = list(calls_in(f.body, accessor_names | RAW_LIST_ITEM))
+        sites += _raw_list_subscripts(f)
+        for c in sites:
+            sub = c.kind == 'ArraySubscriptExpr'
+            t = callee_func(prog, f, c) if not sub else None
+            raw = sub or c.callee_name() in RAW_LIST_ITEM
+            if raw and t is not None:
+                continue
             if parent is None:
                 parent = enclosing_map(f.body)
             loops = [a for a in ancestors(c, parent) if a.kind in LOOP_KINDS]
             if not loops:
                 continue
-            cont = c.call_args()[0]
+            if sub:
+                # the macro form ((PyListObject *)(x.ptr()))->ob_item[i]: the container is x
+                ptrs = [m for m in c.kids[0].walk() if m.kind == 'CXXMemberCallExpr' and m.callee_name() == 'ptr']
+                cont = ptrs[0].call_base() if ptrs else c.kids[0]
+            else:
+                cont = c.call_args()[0]
+            if raw and not sub:
+                # PyList_GET_ITEM(x.ptr(), i): the container is x
+                cont = strip_casts(cont)
+                if cont is not None and cont.kind == 'CXXMemberCallExpr' and cont.callee_name() == 'ptr':
+                    cont = cont.call_base()
             cls = _container_class(prog, f, cont, inits)
             owner = f if not f.is_lambda else prog.funcs.get(f.parent, f)
             n += 1
-            site = '%s/ListGetItem(%s)' % (short(owner), cls)
-            unchecked = t is not None and t.key in listw
+            site = '%s/%s(%s)' % (short(owner), 'PyList_GET_ITEM' if raw else 'ListGetItem', cls)
+            unchecked = raw or (t is not None and t.key in listw)
             if cls != 'USER':
                 ctx.ok(site, '%s: indexed list is %s (not reachable by user code during the loop)'
                        % (inst(f), {'COPY': 'a private copy', 'SPEC': "the treespec's own list",
@@ -195,7 +225,7 @@ def i1(ctx):
                         '(%s) inside a loop whose bound was read before the loop and whose body '
                         'calls back into Python (%s): a predicate / flatten function that shrinks '
                         'the list makes the next read go out of bounds'
-                        % (inst(f), short(t), pys[0].callee_name()), c.loc)
+                        % (inst(f), 'PyList_GET_ITEM' if raw else short(t), pys[0].callee_name()), c.loc)
     ctx.require(n >= 6, 'only %d list accessor sites inside loops' % n)
 
 
